@@ -95,12 +95,23 @@ package prometheus
 //@   trace[C15,adds-only-positive] never prometheus.Counter.Add when value <= 0
 //@   trace[C15,adds-once] exactly 1 prometheus.Counter.Add when value > 0
 
+// byte counts go to the right direction label, per key and per location
 //@ func (*proxyCollector).addClientTarget
 //@   props C15 C16 C18
 //@   requires validPC(c)
+//@   trace[C15,four-series] exactly 4 prometheus.addIfNonZero
+//@   trace[C15,client-to-proxy-per-key] holds evnth("prometheus.addIfNonZero", 0, "arg", 0) == clientProxyBytes && evnth("prometheus.addIfNonZero", 0, "arg", 1) == c.dataBytesPerKey && evnth("prometheus.addIfNonZero", 0, "arg", 2)[0] == "c>p" && evnth("prometheus.addIfNonZero", 0, "arg", 2)[1] == accessKey
+//@   trace[C15,client-to-proxy-per-location] holds evnth("prometheus.addIfNonZero", 1, "arg", 0) == clientProxyBytes && evnth("prometheus.addIfNonZero", 1, "arg", 1) == c.dataBytesPerLocation && evnth("prometheus.addIfNonZero", 1, "arg", 2)[0] == "c>p"
+//@   trace[C15,proxy-to-target-per-key] holds evnth("prometheus.addIfNonZero", 2, "arg", 0) == proxyTargetBytes && evnth("prometheus.addIfNonZero", 2, "arg", 1) == c.dataBytesPerKey && evnth("prometheus.addIfNonZero", 2, "arg", 2)[0] == "p>t" && evnth("prometheus.addIfNonZero", 2, "arg", 2)[1] == accessKey
+//@   trace[C15,proxy-to-target-per-location] holds evnth("prometheus.addIfNonZero", 3, "arg", 0) == proxyTargetBytes && evnth("prometheus.addIfNonZero", 3, "arg", 1) == c.dataBytesPerLocation && evnth("prometheus.addIfNonZero", 3, "arg", 2)[0] == "p>t"
 //@ func (*proxyCollector).addTargetClient
 //@   props C15 C16 C18
 //@   requires validPC(c)
+//@   trace[C15,four-series] exactly 4 prometheus.addIfNonZero
+//@   trace[C15,target-to-proxy-per-key] holds evnth("prometheus.addIfNonZero", 0, "arg", 0) == targetProxyBytes && evnth("prometheus.addIfNonZero", 0, "arg", 1) == c.dataBytesPerKey && evnth("prometheus.addIfNonZero", 0, "arg", 2)[0] == "p<t" && evnth("prometheus.addIfNonZero", 0, "arg", 2)[1] == accessKey
+//@   trace[C15,target-to-proxy-per-location] holds evnth("prometheus.addIfNonZero", 1, "arg", 0) == targetProxyBytes && evnth("prometheus.addIfNonZero", 1, "arg", 1) == c.dataBytesPerLocation && evnth("prometheus.addIfNonZero", 1, "arg", 2)[0] == "p<t"
+//@   trace[C15,proxy-to-client-per-key] holds evnth("prometheus.addIfNonZero", 2, "arg", 0) == proxyClientBytes && evnth("prometheus.addIfNonZero", 2, "arg", 1) == c.dataBytesPerKey && evnth("prometheus.addIfNonZero", 2, "arg", 2)[0] == "c<p" && evnth("prometheus.addIfNonZero", 2, "arg", 2)[1] == accessKey
+//@   trace[C15,proxy-to-client-per-location] holds evnth("prometheus.addIfNonZero", 3, "arg", 0) == proxyClientBytes && evnth("prometheus.addIfNonZero", 3, "arg", 1) == c.dataBytesPerLocation && evnth("prometheus.addIfNonZero", 3, "arg", 2)[0] == "c<p"
 
 //@ func (*tcpServiceMetrics).openConnection
 //@   props C15 C18
@@ -116,7 +127,7 @@ package prometheus
 //@   trace[C15,probe-once] exactly 1 prometheus.Observer.Observe
 
 //@ func newTCPConnMetrics
-//@   props C15 C18
+//@   props C15 C17 C18
 //@   requires validTCPSM(tcpServiceMetrics) && validTT(tunnelTimeMetrics) && clientConn != nil
 //@   ensures result != nil && result.accessKey == ""
 //@   trace[C15,opened-once] exactly 1 prometheus.(*tcpServiceMetrics).openConnection
@@ -133,6 +144,9 @@ package prometheus
 //@ func (*tcpConnMetrics).AddClosed
 //@   props C15 C17 C18
 //@   requires validTCPCM(cm)
+//@   trace[C15,client-side-bytes] each prometheus.(*proxyCollector).addClientTarget satisfies $arg1 == data.ClientProxy && $arg2 == data.ProxyTarget && $arg3 == cm.accessKey
+//@   trace[C15,target-side-bytes] each prometheus.(*proxyCollector).addTargetClient satisfies $arg1 == data.TargetProxy && $arg2 == data.ProxyClient && $arg3 == cm.accessKey
+//@   trace[C15,closed-with-status] each prometheus.(*tcpServiceMetrics).closeConnection satisfies $arg1 == status && $arg3 == cm.accessKey
 //@   trace[C17,unauthenticated-never-stops] never prometheus.(*tunnelTimeMetrics).stopConnection when cm.accessKey == ""
 //@   trace[C17,stop-at-most-once] atmost 1 prometheus.(*tunnelTimeMetrics).stopConnection
 //@   trace[C17,no-start-at-close] never prometheus.(*tunnelTimeMetrics).startConnection
